@@ -46,3 +46,7 @@ def run(ctx) -> None:
         items = [I.expr_of(x) for x in al.items] if isinstance(al, ListV) and al.absorbed is None else None
         ctx.check(items == ["hit_a", "hit_b"], "C11.S4.observer-appends", "MatchedObserver.regex_matched",
                   f"addr_list={al!r}"[:120], "two reports end up in addr_list in arrival order")
+    # S6: the stream that is scanned holds every instruction of the listing: nothing on the way from the text to the
+    # stream swallows an exception and drops (or half-parses) an instruction
+    from ._parser import parser_never_swallows
+    parser_never_swallows(ctx, "C11.S6.stream-holds-every-instruction")
